@@ -80,11 +80,18 @@ Rate(dg, k, tk, probesLeft) ==
                         IF isProbe THEN [probesLeft EXCEPT ![d.sp + 1] = @ - 1] ELSE probesLeft)
        IN <<(free \/ tk >= d.size) /\ rest[1], rest[2]>>
 
+RECURSIVE SumLeft(_, _)
+SumLeft(lf, i) == IF i = 0 THEN 0 ELSE lf[i].size + SumLeft(lf, i - 1)
+
 Step ==
   /\ Is("Step")
   /\ LET unexplained == {i \in DOMAIN e.left : ~Covered(e.left[i]) /\ ~Discarded(e.left[i])}
          zeroRttGone == e.zchg \/ e.retry
-         gate == IF e.kind = "Tx" THEN Gate(e.dgl, 1, e.pre_ifb, e.lp) ELSE <<TRUE, FALSE>>
+         \* (packets that leave while the transmission is being built - a client drops its Initial space
+         \* with its first Handshake packet - make room at a moment the trace does not show: from the start)
+         leftBytes == SumLeft(e.left, Len(e.left))
+         gate == IF e.kind = "Tx" THEN Gate(e.dgl, 1, IF e.pre_ifb > leftBytes THEN e.pre_ifb - leftBytes ELSE 0, e.lp)
+                 ELSE <<TRUE, FALSE>>
          paced == e.kind = "Tx" /\ e.rate > 0
          full == Refill(tokT, e.t, e.rate, e.mtu, IF e.pathchg THEN -1 ELSE tok)
          rt == IF paced THEN Rate(e.dgl, 1, full, e.lp) ELSE <<TRUE, tok>>
